@@ -40,6 +40,7 @@ import (
 	"unicode/utf8"
 
 	"harness/internal/lp"
+	"harness/internal/track"
 
 	"github.com/lesismal/nbio/logging"
 	"github.com/lesismal/nbio/nbhttp"
@@ -75,6 +76,9 @@ type fakeConn struct{ e *endpoint }
 
 func (c *fakeConn) Read(b []byte) (int, error) { return 0, nil }
 func (c *fakeConn) Write(b []byte) (int, error) {
+	if tracker != nil {
+		tracker.CheckSlice(b, "the slice handed to Conn.Write")
+	}
 	if c.e.closed {
 		return 0, net.ErrClosed
 	}
@@ -122,6 +126,11 @@ type teeW struct {
 func (t *teeW) Write(p []byte) (int, error) { *t.buf = append(*t.buf, p...); return t.w.Write(p) }
 func (t *teeW) Close() error                { return t.w.Close() }
 
+type nopWC struct{}
+
+func (nopWC) Write(p []byte) (int, error) { return len(p), nil }
+func (nopWC) Close() error                { return nil }
+
 type wsCfg struct {
 	client               bool
 	compress             bool
@@ -130,7 +139,11 @@ type wsCfg struct {
 }
 
 func newEndpoint(g wsCfg) *endpoint {
-	engine := nbhttp.NewEngine(nbhttp.Config{ReadLimit: g.readLimit, MaxWebsocketFramePayloadSize: g.mf})
+	conf := nbhttp.Config{ReadLimit: g.readLimit, MaxWebsocketFramePayloadSize: g.mf}
+	if tracker != nil {
+		conf.BodyAllocator = tracker
+	}
+	engine := nbhttp.NewEngine(conf)
 	if g.readLimit == 0 {
 		engine.ReadLimit = 0
 	}
@@ -306,6 +319,19 @@ func exec(e *lp.Exec) {
 	var rt *rtCase
 	mode := ""
 	finish := func() {
+		had := rc != nil || rt != nil
+		defer func() {
+			if tracker != nil {
+				tracker.Audit()
+				for _, v := range tracker.Drain() {
+					e.Oracle(v.Oracle, "%s", v.Detail)
+				}
+				if live := tracker.Live(); len(live) > 0 && had {
+					e.Count("c11", "cases-with-live-buffers-after-close")
+				}
+				tracker.Reset()
+			}
+		}()
 		if rc != nil {
 			e.Key(rc.key.String(), rc.nt)
 			rc.e.ws.CloseAndClean(nil)
@@ -348,6 +374,40 @@ func exec(e *lp.Exec) {
 			e.Count("cases", "mask")
 			e.P("> %s", line)
 			e.P("ok")
+		case f[0] == "C" && len(f) > 1 && f[1] == "trunc":
+			finish()
+			mode = "trunc"
+			e.Count("cases", "trunc")
+			e.P("> %s", line)
+			e.P("ok")
+		case f[0] == "T" && mode == "trunc" && len(f) >= 2:
+			// the real truncWriter fed with the chunks: what it passes on
+			var got []byte
+			tw := websocket.VerifTruncWriter(&teeW{w: nopWC{}, buf: &got})
+			var all []byte
+			for _, c := range strings.Split(f[1], ",") {
+				b := parseSpec(c)
+				all = append(all, b...)
+				tw.Write(b)
+			}
+			want := []byte{}
+			if len(all) > 4 {
+				want = all[:len(all)-4]
+			}
+			if !bytes.Equal(got, want) {
+				e.Oracle("c12-trunc", "truncWriter passed on %s for the stream %s", short(got), short(all))
+			}
+			e.P("> %s", line)
+			e.P("R %s", short(got))
+		case f[0] == "C" && len(f) > 1 && f[1] == "utf8":
+			finish()
+			mode = "utf8"
+			e.Count("cases", "utf8")
+			e.P("> %s", line)
+			e.P("ok")
+		case f[0] == "U" && mode == "utf8" && len(f) >= 2:
+			e.P("> %s", line)
+			e.P("R %d", b2i(utf8.Valid(parseSpec(f[1]))))
 		case f[0] == "M" && mode == "mask" && len(f) >= 3:
 			key := lp.Unhex(f[1])
 			data := parseSpec(f[2])
@@ -385,6 +445,24 @@ func exec(e *lp.Exec) {
 	finish()
 }
 
+// guard runs a call into nbio under a watchdog: a call that does not return (a loop that stopped making progress)
+// is reported as a direct-oracle failure of C15 ("the bounded inflate loop terminates") and ends the process;
+// `echo` is the op line to print first so that the report is attributed to the right case.
+func guard(e *lp.Exec, echo string, f func() error) error {
+	done := make(chan error, 1)
+	go func() { done <- f() }()
+	select {
+	case err := <-done:
+		return err
+	case <-time.After(20 * time.Second):
+		e.P("> %s", echo)
+		e.P("R hang")
+		e.Oracle("c15-limit", "class=hang a call into websocket.Conn did not return within 20s (%s)", strings.Fields(echo)[0])
+		os.Exit(3)
+	}
+	return nil
+}
+
 func actsStr(a []string) string { return "[" + strings.Join(a, ";") + "]" }
 
 func execD(e *lp.Exec, rc *recvCase, lg *capLogger, f []string) {
@@ -399,7 +477,7 @@ func execD(e *lp.Exec, rc *recvCase, lg *capLogger, f []string) {
 	ep.reset()
 	cache0 := ep.ws.VerifCacheLen()
 	t0 := time.Now()
-	err := ep.ws.Parse(append([]byte{}, seg...))
+	err := guard(e, "D "+f[1]+" infl= keys=", func() error { return ep.ws.Parse(append([]byte{}, seg...)) })
 	if d := time.Since(t0); d > 5*time.Second {
 		e.Oracle("c15-limit", "class=slow Parse took %v on %d bytes", d, len(seg))
 	}
@@ -642,6 +720,7 @@ func (r *rtCase) cuts(n int) []int {
 	return out
 }
 
+// keysOf: the mask keys of the frames in a list of conn writes (tolerant of malformed frames: it stops there)
 func keysOf(writes [][]byte) string {
 	var ks []string
 	for _, w := range writes {
@@ -650,15 +729,27 @@ func keysOf(writes [][]byte) string {
 			hl := 2
 			n := uint64(b[1] & 0x7f)
 			if n == 126 {
+				if len(b) < 4 {
+					break
+				}
 				n = uint64(binary.BigEndian.Uint16(b[2:4]))
 				hl = 4
 			} else if n == 127 {
+				if len(b) < 10 {
+					break
+				}
 				n = binary.BigEndian.Uint64(b[2:10])
 				hl = 10
 			}
 			if b[1]&0x80 != 0 {
+				if len(b) < hl+4 {
+					break
+				}
 				ks = append(ks, lp.Hex(b[hl:hl+4]))
 				hl += 4
+			}
+			if n > uint64(len(b)-hl) {
+				break
 			}
 			b = b[hl+int(n):]
 		}
@@ -701,7 +792,8 @@ func (r *rtCase) execW(e *lp.Exec, lg *capLogger, f []string) {
 	for _, k := range cuts {
 		cs = append(cs, strconv.Itoa(k))
 		if rerr == 0 {
-			rerr = errCode(rcv.ws.Parse(append([]byte{}, rest[:k]...)))
+			seg := append([]byte{}, rest[:k]...)
+			rerr = errCode(guard(e, strings.Join(f, " "), func() error { return rcv.ws.Parse(seg) }))
 		}
 		rest = rest[k:]
 	}
@@ -725,9 +817,10 @@ func (r *rtCase) execW(e *lp.Exec, lg *capLogger, f []string) {
 	e.Count("rt_ops", f[2])
 	// c12-roundtrip: received == sent (type, payload, exactly once, nothing else)
 	if mt == 1 || mt == 2 {
-		deliverable := !r.closed && (mt == 2 || utf8.Valid(data)) && (r.limit == 0 || len(data) < r.limit ||
-			(len(data) == r.limit && len(snd.defl) == 0)) && (r.limit == 0 || len(snd.defl) == 0 || len(snd.defl[0]) <= r.limit)
-		boundary := r.limit > 0 && len(data) == r.limit && len(snd.defl) > 0
+		// deliverable: valid text or binary, within the receiver's limit both as written (deflated) and as delivered
+		deliverable := !r.closed && (mt == 2 || utf8.Valid(data)) && (r.limit == 0 || len(data) <= r.limit) &&
+			(r.limit == 0 || len(snd.defl) == 0 || len(snd.defl[0]) <= r.limit)
+		boundary := false
 		got := len(rcv.delivered)
 		switch {
 		case deliverable && (werr != 0 || got != 1 || rcv.dtypes[0] != mt || !bytes.Equal(rcv.delivered[0], data)):
@@ -773,7 +866,22 @@ func lenClass(n int) int {
 	return 3
 }
 
+// tracker: with `exec -track` every endpoint takes its buffers from the tracking allocator of harness/internal/track
+// (C11: double free, use after free, foreign free; oracles c11-*); without the flag the production pool is used.
+var tracker *track.Tracker
+
+// genSeed: the -seed argument of `gen` (seed*1000 + shard index; used to split exhaustive sweeps over the shards)
+var genSeed int64 = 1
+
 func main() {
+	for i, a := range os.Args {
+		if a == "-track" {
+			tracker = track.New().Install()
+		}
+		if a == "-seed" && i+1 < len(os.Args) {
+			genSeed, _ = strconv.ParseInt(os.Args[i+1], 10, 64)
+		}
+	}
 	if len(os.Args) > 1 && os.Args[1] == "facts" {
 		facts()
 		return
